@@ -82,7 +82,7 @@ QuintSource(i) ==
 QuintSet == 1..QuintCount
 
 \* decorations over pairs of representatives
-NDecor == 18
+NDecor == 20
 DecorCount == NR * NR * NDecor
 DecorSource(i) ==
   LET k == i - 1  sh == k % NDecor  ob == RepSeq[((k \div NDecor) % NR) + 1]  oa == RepSeq[(k \div (NDecor * NR)) + 1]
@@ -105,6 +105,8 @@ DecorSource(i) ==
     [] sh = 15 -> <<R("x"), A, R("y"), B, R("z"), OP("++"), Q, R("u"), A, R("t"), C, R("v"), B, R("w")>>
     [] sh = 16 -> <<LP, R("c"), Q, R("x"), A, R("y"), C, R("u"), RP, Q, R("v"), C, R("w"), B, R("z")>>   \* a conditional as the condition of a conditional
     [] sh = 17 -> <<LP, LP, R("c"), Q, R("x"), C, R("y"), RP, Q, R("t"), C, R("u"), RP, Q, LP, R("v"), A, R("w"), RP, C, R("z")>>
+    [] sh = 18 -> <<R("x"), A, LP, R("y"), Q, R("u"), C, R("v"), RP>>                            \* a parenthesised conditional as the LAST operand
+    [] sh = 19 -> <<D("["), R("x"), A, LP, R("c"), Q, R("u"), B, R("t"), C, R("v"), RP, COM, OP("-"), LP, OP("-"), R("z"), RP, D("]")>>
 \* C08: user-registered operators at adjacent and extreme precedences against each other and against built-in representatives
 UserSeq == SetSeq((DOMAIN Table.infix \ DOMAIN BuiltinInfix) \cup {"+", "-", "*", "==", "=", "in", "||"})
 NUS == Len(UserSeq)
